@@ -290,7 +290,7 @@ def items_generator_big(tier):
 def parts():
     return [
         Part("subsets", body_subset, items=items_subsets, exhaustive=True),
-        Part("large_subsets", body_subset, strategy=strat_large, quick=500, thorough=1500),
-        Part("generator", body_generator, strategy=strat_generator, quick=45, thorough=120),
+        Part("large_subsets", body_subset, strategy=strat_large, quick=500, thorough=3000),
+        Part("generator", body_generator, strategy=strat_generator, quick=45, thorough=200),
         Part("generator_big", body_generator, items=items_generator_big),
     ]
